@@ -4,6 +4,7 @@ import (
 	"bytes"
 	"errors"
 	"fmt"
+	"io"
 	"regexp"
 	"strconv"
 
@@ -126,11 +127,22 @@ func runC10(c *sim.Ctx) *sim.Violation {
 	if berr != nil {
 		return sim.V("C10/"+typ+"/build", "cannot build %s through the API: %v", typ, berr)
 	}
-	// (1) a writer that accepts everything
+	// (1) a writer that accepts everything; one time in three it also offers
+	// WriteString / WriteByte / ReadFrom (bait for type-switching fast paths)
 	w := link.NewWriter(c)
+	fancy := t.Bool(1, 3)
+	wr := func(x *link.Writer) io.Writer {
+		if fancy {
+			return link.FancyWriter{Writer: x}
+		}
+		return x
+	}
+	if fancy {
+		c.Count("probe.writer-also-offers-WriteString/WriteByte/ReadFrom")
+	}
 	var n int64
 	var err error
-	if pi := sim.Guard(func() { n, err = p.WriteTo(w) }); pi != nil {
+	if pi := sim.Guard(func() { n, err = p.WriteTo(wr(w)) }); pi != nil {
 		return sim.V("C10/"+typ+"/panic:"+pi.Site, "WriteTo panicked: %s\npacket: %s", pi.Value, a.Canon())
 	}
 	B := w.Buf
@@ -169,7 +181,7 @@ func runC10(c *sim.Ctx) *sim.Violation {
 	E := errors.New(fmt.Sprintf("writer failure #%d", c.Seq()))
 	w2 := link.NewWriter(c)
 	w2.Kind, w2.Err = 1, E
-	if pi := sim.Guard(func() { n, err = p.WriteTo(w2) }); pi != nil {
+	if pi := sim.Guard(func() { n, err = p.WriteTo(wr(w2)) }); pi != nil {
 		return sim.V("C10/"+typ+"/panic:"+pi.Site, "WriteTo(refusing writer) panicked: %s", pi.Value)
 	}
 	if !errors.Is(err, E) {
@@ -191,7 +203,7 @@ func runC10(c *sim.Ctx) *sim.Violation {
 	for _, k := range ks {
 		w3 := link.NewWriter(c)
 		w3.Kind, w3.K, w3.Err = 2, k, E
-		if pi := sim.Guard(func() { n, err = p.WriteTo(w3) }); pi != nil {
+		if pi := sim.Guard(func() { n, err = p.WriteTo(wr(w3)) }); pi != nil {
 			return sim.V("C10/"+typ+"/panic:"+pi.Site, "WriteTo(accept-%d writer) panicked: %s", k, pi.Value)
 		}
 		if !errors.Is(err, E) {
